@@ -31,6 +31,8 @@ from numpy import ndarray
 from numpy import number
 from numpy import object_
 
+from gemseo.utils.compatibility.scipy import sparse_classes
+
 if TYPE_CHECKING:
     from numbers import Number
 
@@ -95,6 +97,8 @@ def store_attr_h5data(obj: Any, group: Group) -> None:
             new_group = parent_group.require_group(name)
             store_attr_h5data(value, new_group)
             continue
+        elif isinstance(value, sparse_classes):
+            value = value.toarray()
         elif hasattr(value, "__iter__") and not (
             isinstance(value, ndarray) and issubdtype(value.dtype, number)
         ):
